@@ -31,9 +31,9 @@ CHECKS = {
  "C08": (E1, "model_checking", "stateless DFS over all timings of extra / missing responses + crafted request bodies",
          "handlers emitting 0..3 responses on unary and client-streaming methods under every schedule (in-process peek logic, HTTP second select), clients sending 0..2 request frames to single-request HTTP methods",
          "as C01", "6/C08"),
- "C09": (E2, "exploration", "bounded-exhaustive enumeration of GRPC-Timeout strings and caller durations with bracketing oracles",
-         "every header string of a stated grammar through the real server, every caller duration through the real client and end to end, judged by instants bracketing the call (no tolerances)",
-         "wall clock is read only to bracket", "6/C09"),
+ "C09": (E1, "model_checking", "bounded-exhaustive enumeration of GRPC-Timeout strings, caller durations, credentials delays and caller metadata with bracketing oracles (E2 part) + stateless DFS over all schedules of calls with different deadlines in flight at once, on a virtual clock that stands still (E1 part)",
+         "E2 part: every header string of a stated grammar through the real server, every caller duration through the real client and end to end, judged by instants bracketing the call (no tolerances); E1 part: 2-3 requests with deadlines from {1h, 5s, none} served concurrently (optionally after a first request has completed) straight into the HTTP server, exhaustively, plus the same pairs through the whole client / memhttp / server stack under bounded preemptions: each handler's context has exactly its own caller's time left",
+         "wall clock is read only to bracket (E2 part); E1 part as C01, timers never fire", "6/C09"),
  "C10": (E2, "exploration", "exhaustive enumeration of caller context layerings",
          "all 2^6 subsets of context layers x 2 stacking orders x nesting x deadline x kind x interceptors, oracle evaluated inside the handler; thorough cross-checks the oracle against grpc-go over bufconn",
          "none beyond the enumeration bounds", "6/C10"),
